@@ -32,12 +32,15 @@ def main():
         name = os.path.basename(path)[:-5]
         args = []
         tmps = []
+        srcs = {}
         for ed in sd["edits"]:
             f = os.path.join(repo, ed["file"])
-            src = open(f).read()
-            if src.count(ed["old"]) < 1:
+            if f not in srcs:
+                srcs[f] = open(f).read()
+            if srcs[f].count(ed["old"]) < 1:
                 return dict(seed=name, status="skipped", why="pattern not found in " + ed["file"])
-            src = src.replace(ed["old"], ed["new"], 1)
+            srcs[f] = srcs[f].replace(ed["old"], ed["new"], 1)
+        for f, src in srcs.items():
             tf = tempfile.NamedTemporaryFile("w", suffix=".go", delete=False, dir=tempfile.gettempdir())
             tf.write(src); tf.close(); tmps.append(tf.name)
             args += ["-overlay", f + "=" + tf.name]
